@@ -8,6 +8,8 @@ import Amshan.Model.P1Defs
 import Amshan.Model.ProtoInst
 import Amshan.Model.Obis
 import Amshan.Model.BackOff
+import Amshan.Model.Decoders
+import Amshan.Spec.Lists
 import Amshan.Spec.ObisText
 /-
   Line-protocol driver: one request per line on stdin, one answer per line on stdout.
@@ -262,6 +264,229 @@ def opBreaker : List String → String
     | _, _, _, _, _ => "bad-args"
   | _ => "bad-args"
 
+/-- decode <decoder name> hex -/
+def opDecode : List String → String
+  | [name, hex] =>
+    match Dec.decoderByName name, octetsOfHex? hex with
+    | some d, some p => Dec.renderResult (d p)
+    | _, _ => "bad-args"
+  | _ => "bad-args"
+
+def prevOf? (s : String) : Option (Option Nat) := if s == "N" then some none else s.toNat?.map some
+
+/-- auto prev payloads(comma hex) -> per payload "result @prev" -/
+def opAuto : List String → String
+  | [prev, payloads] =>
+    match prevOf? prev, chunksOf? payloads with
+    | some prev, some ps =>
+      let rec go (prev : Option Nat) : List (List Nat) → List String
+        | [] => []
+        | p :: rest =>
+          match Dec.stepPayload prev p with
+          | .ok (prev1, r) => ((match r with | some d => Dec.renderDict d | none => "None") ++ " @" ++ optNat prev1) :: go prev1 rest
+          | .error e => ["EXC " ++ e.name]
+      String.intercalate " ; " (go prev ps)
+    | _, _ => "bad-args"
+  | _ => "bad-args"
+
+def frameOfData (d : List Nat) : Hdlc.Frame := d.foldl Hdlc.Frame.append Hdlc.Frame.empty
+
+/-- automsg prev kind hex   (kind H = HDLC frame octets, D = DLMS message, P = P1 readout bytes) -/
+def opAutoMsg : List String → String
+  | [prev, kind, hex] =>
+    match prevOf? prev, octetsOfHex? hex with
+    | some prev, some b =>
+      let msg : Option Dec.Message :=
+        if kind == "H" then some (.hdlc (frameOfData b))
+        else if kind == "D" then some (.dlms b)
+        else if kind == "P" then (match P1.Readout.make b with | .ok r => some (.p1 r) | .error _ => none)
+        else none
+      match msg with
+      | none => "bad-message"
+      | some m =>
+        match Dec.stepMessage prev m with
+        | .ok (prev1, r) => (match r with | some d => Dec.renderDict d | none => "None") ++ " @" ++ optNat prev1
+        | .error e => "EXC " ++ e.name
+    | _, _ => "bad-args"
+  | _ => "bad-args"
+
+/-- p1.parse hex(text) -> data sets and loop iterations -/
+def opP1Parse : List String → String
+  | [hex] =>
+    match octetsOfHex? hex with
+    | some t =>
+      match P1Parse.parseContent t with
+      | .ok (items, iters) =>
+        let rv (v : P1Parse.DataSetValue) := hexOfOctets v.value ++ "*" ++ optHex v.unit
+        (if items.isEmpty then "." else String.intercalate " " (items.map fun i => hexOfOctets i.address ++ "(" ++ String.intercalate "," (i.values.map rv) ++ ")"))
+          ++ " #" ++ toString iters
+      | .error e => e.name
+    | none => "bad-args"
+  | _ => "bad-args"
+
+/-- float ops for the correspondence of Model/Float.lean: flt.str hex | flt.scale v s | flt.kilo hex -/
+def opFltStr : List String → String
+  | [hex] => match octetsOfHex? hex with
+    | some t => P1.excOr Flt.render (Flt.ofStr t)
+    | none => "bad-args"
+  | _ => "bad-args"
+
+def opFltScale : List String → String
+  | [v, s] => match v.toInt?, s.toNat? with
+    | some v, some s => Flt.render (Flt.roundDigits (Flt.mul (Flt.ofInt v) (Flt.tenPowNeg s)) s) ++ " " ++
+        Flt.render (Flt.mul (Flt.ofInt v) (Flt.tenPowNeg s)) ++ " " ++ Flt.render (Flt.ofRat (decide (v < 0)) v.natAbs (10 ^ s))
+    | _, _ => "bad-args"
+  | _ => "bad-args"
+
+def opFltKilo : List String → String
+  | [hex] => match octetsOfHex? hex with
+    | some t => match Flt.ofStr t with
+      | .ok f => P1.excOr toString (Flt.toInt (Flt.mul f (Flt.ofNat 1000)))
+      | .error e => e.name
+    | none => "bad-args"
+  | _ => "bad-args"
+
+/-! list.enc : descriptors of well-formed lists -> Lean spec encoder -> model decoder + expected dictionary -/
+open Amshan.ListSpec in
+def optNatTok? (s : String) : Option (Option Nat) := if s == "N" then some none else s.toNat?.map some
+def optIntTok? (s : String) : Option (Option Int) := if s == "N" then some none else s.toInt?.map some
+
+/-- date-time descriptor  y.m.d.dow.h.mi.s.hs|N.dev|N.status -/
+def dtDescOf? (s : String) : Option ListSpec.DateTimeDesc :=
+  match s.splitOn "." with
+  | [y, m, d, w, h, mi, se, hs, dev, st] =>
+    match y.toNat?, m.toNat?, d.toNat?, w.toNat?, h.toNat?, mi.toNat?, se.toNat?, optNatTok? hs, optIntTok? dev, st.toNat? with
+    | some y, some m, some d, some w, some h, some mi, some se, some hs, some dev, some st =>
+      some { year := y, month := m, day := d, dow := w, hour := h, minute := mi, second := se, hundredths := hs, deviation := dev, status := st }
+    | _, _, _, _, _, _, _, _, _, _ => none
+  | _ => none
+
+/-- header  llchex,tag,invokehex,clock   clock = N | T<dt> | U<dt> -/
+def headerOf? (s : String) : Option ListSpec.Header :=
+  match s.splitOn "," with
+  | [llc, tag, inv, clk] =>
+    let clkO : Option ListSpec.ApduClock :=
+      if clk == "N" then some .null
+      else if clk.startsWith "T" then (dtDescOf? (clk.drop 1).toString).map .tagged
+      else if clk.startsWith "U" then (dtDescOf? (clk.drop 1).toString).map .untagged
+      else none
+    match octetsOfHex? llc, tag.toNat?, octetsOfHex? inv, clkO with
+    | some llc, some tag, some inv, some clk => some { llc := llc, tag := tag, invoke := inv, clock := clk }
+    | _, _, _, _ => none
+  | _ => none
+
+def aidonElemOf? (s : String) : Option ListSpec.AidonElem :=
+  match s.splitOn "," with
+  | ["T", o, t] => match octetsOfHex? o, octetsOfHex? t with | some o, some t => some (.text o t) | _, _ => none
+  | ["C", o, d] => match octetsOfHex? o, dtDescOf? d with | some o, some d => some (.clock o d) | _, _ => none
+  | ["R", o, ty, v, sc, u] =>
+    let tyO : Option ListSpec.RegType := if ty == "u32" then some .u32 else if ty == "s16" then some .s16 else if ty == "u16" then some .u16 else none
+    match octetsOfHex? o, tyO, v.toInt?, sc.toInt?, u.toNat? with
+    | some o, some ty, some v, some sc, some u => some (.reg o ty v sc u)
+    | _, _, _, _, _ => none
+  | _ => none
+
+def kvalOf? (k v : String) : Option ListSpec.KVal :=
+  if k == "T" then (octetsOfHex? v).map .text
+  else if k == "U" then v.toNat?.map .u32
+  else if k == "C" then (dtDescOf? v).map .clock
+  else none
+
+def kamValOf? (k v : String) : Option ListSpec.KamVal :=
+  if k == "T" then (octetsOfHex? v).map .text
+  else if k == "U" then v.toNat?.map .u32
+  else if k == "S" then v.toNat?.map .u16
+  else if k == "C" then (dtDescOf? v).map .clock
+  else none
+
+def listOf? {α} (f : String → Option α) (s : String) : Option (List α) :=
+  if s == "." then some [] else (s.splitOn ";").mapM f
+
+def apduDtOf (h : ListSpec.Header) : Option Cosem.DT :=
+  match h.clock with
+  | .null => none
+  | .tagged d => some (ListSpec.expectedDT d)
+  | .untagged d => some (ListSpec.expectedDT d)
+
+instance (h : ListSpec.Header) : Decidable h.WF := by
+  unfold ListSpec.Header.WF; cases h.clock <;> infer_instance
+instance (e : ListSpec.AidonElem) : Decidable e.WF := by cases e <;> (unfold ListSpec.AidonElem.WF; infer_instance)
+instance (e : ListSpec.KVal) : Decidable e.WF := by cases e <;> (unfold ListSpec.KVal.WF; infer_instance)
+instance (e : ListSpec.KamVal) : Decidable e.WF := by cases e <;> (unfold ListSpec.KamVal.WF; infer_instance)
+
+def outStr (o : Cosem.Out) : String := Dec.renderResult (Dec.ofOut o)
+
+/-- list.enc meter header|- desc -/
+def opListEnc : List String → String
+  | [meter, hdr, desc] =>
+    let hdrO : Option (Option ListSpec.Header) := if hdr == "-" then some none else (headerOf? hdr).map some
+    match hdrO with
+    | none => "bad-args"
+    | some h =>
+      let pre := match h with | some h => ListSpec.encHeader h | none => []
+      let hwf := match h with | some h => decide h.WF | none => true
+      if meter == "aidon" then
+        match listOf? aidonElemOf? desc with
+        | some es =>
+          let w := pre ++ ListSpec.encAidonBody es
+          let m := if h.isSome then Aidon.decodeFrame w else Aidon.decodeBody w
+          let wf := hwf && es.all (fun e => decide e.WF) && decide (es.length ≤ 255)
+          s!"{hexOfOctets w} | {outStr m} | {Dec.renderDict (ListSpec.aidonExpected es)} | {bool01 wf}"
+        | none => "bad-args"
+      else if meter == "kaifa_values" then
+        match listOf? (fun t => match t.splitOn "," with | [k, v] => kvalOf? k v | _ => none) desc with
+        | some vs =>
+          let w := pre ++ ListSpec.encKaifaValues vs
+          let m := if h.isSome then Kaifa.decodeFrame w else Kaifa.decodeBody w
+          let names := (ListSpec.kaifaLayout vs.length).getD []
+          let posok := (List.zip names vs).all (fun p => match p.2 with
+            | .text t => (p.1 == "list_ver_id" && t.length != 6) || p.1 == "meter_id" || p.1 == "meter_type"
+            | .u32 _ => p.1 != "list_ver_id" && p.1 != "meter_id" && p.1 != "meter_type" && p.1 != "meter_datetime"
+            | .clock _ => p.1 == "meter_datetime")
+          let clockOk := match h with | some h => (match h.clock with | .null => false | _ => true) | none => true
+          let wf := hwf && clockOk && (ListSpec.kaifaLayout vs.length).isSome && posok && vs.all (fun e => decide e.WF)
+          let apdu := match h with | some h => apduDtOf h | none => none
+          s!"{hexOfOctets w} | {outStr m} | {Dec.renderDict (ListSpec.kaifaValuesExpected apdu vs)} | {bool01 wf}"
+        | none => "bad-args"
+      else if meter == "kaifa_obis" then
+        match listOf? (fun t => match t.splitOn "," with
+            | [o, k, v] => (match octetsOfHex? o, kvalOf? k v with | some o, some v => some (o, v) | _, _ => none)
+            | _ => none) desc with
+        | some es =>
+          let w := pre ++ ListSpec.encKaifaObis es
+          let m := if h.isSome then Kaifa.decodeFrame w else Kaifa.decodeBody w
+          let wf := hwf && es.all (fun p => decide (ListSpec.Obis6 p.1) && decide p.2.WF) && decide (es.length ≤ 127)
+          s!"{hexOfOctets w} | {outStr m} | {Dec.renderDict (ListSpec.kaifaObisExpected es)} | {bool01 wf}"
+        | none => "bad-args"
+      else if meter == "kamstrup" then
+        -- desc: lenOctet,versionhex,pad;obishex,kind,val,pad;...
+        match desc.splitOn ";" with
+        | first :: rest =>
+          match first.splitOn ",", rest.mapM (fun t => match t.splitOn "," with
+              | [o, k, v, p] => (match octetsOfHex? o, kamValOf? k v, p.toNat? with
+                  | some o, some v, some p => some ({ obis := o, value := v, pad := p } : ListSpec.KamElem) | _, _, _ => none)
+              | _ => none) with
+          | [lo, ver, vp], some elems =>
+            match lo.toNat?, octetsOfHex? ver, vp.toNat? with
+            | some lo, some ver, some vp =>
+              let l : ListSpec.KamList := { lenOctet := lo, version := ver, versionPad := vp, elems := elems }
+              let w := pre ++ ListSpec.encKamList l
+              let m := if h.isSome then Kamstrup.decodeFrame w else Kamstrup.decodeBody w
+              let clockOk := match h with | some h => (match h.clock with | .null => false | _ => true) | none => true
+              let ewf := elems.all (fun e => decide (ListSpec.Obis6 e.obis) && decide e.value.WF && decide (ListSpec.kamKnown e.obis) &&
+                (match e.value with | .clock _ => ListSpec.obisName e.obis == "meter_datetime" | _ => ListSpec.obisName e.obis != "meter_datetime"))
+              let wf := hwf && clockOk && ewf && decide (lo < 256) && decide (ListSpec.printable ver) && decide (ver.length ≤ 255)
+              let exp := ListSpec.kamExpected l
+              let exp := match h with
+                | some h => (match apduDtOf h with | some t => exp.set "meter_datetime" (.dt t) | none => exp)
+                | none => exp
+              s!"{hexOfOctets w} | {outStr m} | {Dec.renderDict exp} | {bool01 wf}"
+            | _, _, _ => "bad-args"
+          | _, _ => "bad-args"
+        | [] => "bad-args"
+      else "bad-args"
+  | _ => "bad-args"
+
 def dispatch (line : String) : String :=
   match (line.trimAscii.toString.splitOn " ").filter (· ≠ "") with
   | [] => "bad-op"
@@ -274,6 +499,14 @@ def dispatch (line : String) : String :=
     | "hdlc.clean" => opHdlcClean args
     | "p1.read" => opP1Read args
     | "proto" => opProto args
+    | "decode" => opDecode args
+    | "list.enc" => opListEnc args
+    | "auto" => opAuto args
+    | "automsg" => opAutoMsg args
+    | "p1.parse" => opP1Parse args
+    | "flt.str" => opFltStr args
+    | "flt.scale" => opFltScale args
+    | "flt.kilo" => opFltKilo args
     | "backoff" => opBackoff args
     | "breaker" => opBreaker args
     | "obis.parse" => opObisParse args
